@@ -150,6 +150,16 @@ class C10(Check):
                         seq = c["pre"] + [c["bad"]] + c["post"]
                         c["disc"] = [seq[k]]
                         cases.append(c)
+            # a wrong-version message as the very first data on a connection, arriving with only 4..7 of its bytes in the
+            # first read (the bad-version path builds its reply from a partial header), and after valid traffic
+            for v in (0, 4, 0x43):
+                for k in (4, 5, 6, 7, 8, 9):
+                    for npre in (0, 1):
+                        m = bytearray(self._valid(rng)); m[0] = v
+                        c = self._mk(rng, side, bytes(m), npre=npre, npost=1, cuts=())
+                        plen = sum(len(x) // 2 for x in c["pre"])
+                        c["cuts"] = [plen + k]
+                        cases.append(c)
             # messages near the 64 KiB limit: unknown type, bad length inside, and valid
             for t, L in ((0x63, 65528), (0x63, 65535), (2, 65535), (10, 65000), (13, 65528)):
                 body = bytes((i * 7) & 0xff for i in range(L - 8))
